@@ -331,23 +331,57 @@ Proof.
 Qed.
 
 (* ---------------------------------------------------------------- declarations and programs *)
-(* the remaining side condition: backend / director / table declarations are fixed points of the
-   normalisation (their property values and the trailing comma of a table are not composed here) *)
-Definition dbooks (d : stmt) : Prop :=
-  match d with
-  | DBackend _ _ _ _ _ | DDirector _ _ _ _ _ _ | DTable _ _ _ _ _ _ => nstmt c false d = d
-  | _ => True
-  end.
-
-Lemma cdeclx_n d nx nx' : cdeclx fok d nx -> sim nx nx' -> dbooks d -> cdeclx fok (nstmt c false d) nx'.
+(* declarations with properties: every property value is an expression of the model, normalised like any other;
+   a table gets its trailing comma *)
+Lemma cbprop_n :
+  (forall p, cbprop fok p -> cbprop fok (nbprop c p)) /\ (forall ps, cbprops fok ps -> cbprops fok (map (nbprop c) ps)).
 Proof.
-  intros H Hs Hb. destruct d; cbn [cdeclx cdecl] in H; try contradiction.
+  apply cbprop_all_ind; intros; cbn [nbprop map].
+  - apply cbp_expr; auto. now apply cexpr_nexpr.
+  - apply cbp_probe; auto.
+  - apply cbs_nil.
+  - apply cbs_cons; auto.
+Qed.
+
+Lemma cdfield_n f : cdfield fok f -> cdfield fok (ndfield c f).
+Proof. destruct f. cbn [cdfield ndfield]. intros (A & B & C & D & E). fin. Qed.
+
+Lemma cdprop_n p : cdprop fok p -> cdprop fok (ndprop c p).
+Proof.
+  destruct p as [f|lb fs rb]; cbn [cdprop ndprop]; [apply cdfield_n|].
+  intros (A & B & C). repeat split; auto. rewrite Forall_forall in *. intros x Hx.
+  apply in_map_iff in Hx as [y [<- Hy]]. apply cdfield_n. auto.
+Qed.
+
+Lemma nexpr_leaf e : ckey e \/ ctval fok e -> nexpr c e = e.
+Proof.
+  unfold nexpr. intros H. destruct e; cbn [ckey ctval] in H; try (destruct H; contradiction);
+    destruct (FmtTok.explicit_string_concat c); reflexivity.
+Qed.
+
+Lemma ctprop_n p l : ctprop fok p l -> forall l', ctprop fok (ntprop c p) l'.
+Proof.
+  destruct p as [k cl v cm]. cbn [ctprop ntprop]. intros (A & B & C & D) l'.
+  rewrite (nexpr_leaf k) by auto. rewrite (nexpr_leaf v) by auto. repeat split; auto.
+  destruct cm; [exact D|reflexivity].
+Qed.
+
+Lemma ctprops_n ps : ctprops fok ps -> ctprops fok (map (ntprop c) ps).
+Proof.
+  induction ps as [|p r IH]; cbn [ctprops map]; auto. intros [A B]. split; [|now apply IH].
+  eapply ctprop_n; eauto.
+Qed.
+
+Lemma cdeclx_n d nx nx' : cdeclx fok d nx -> sim nx nx' -> cdeclx fok (nstmt c false d) nx'.
+Proof.
+  intros H Hs. destruct d; cbn [cdeclx cdecl] in H; try contradiction.
   - (* include *) apply (csimple_n false _ nx nx' H Hs).
   - (* import *) exact H.
   - (* acl *) exact H.
-  - (* backend *) cbn [dbooks] in Hb. rewrite Hb. exact H.
-  - (* director *) cbn [dbooks] in Hb. rewrite Hb. exact H.
-  - (* table *) cbn [dbooks] in Hb. rewrite Hb. exact H.
+  - (* backend *) destruct H as (A & B & C & D & E). cbn [nstmt cdeclx]. repeat split; auto. now apply (proj2 cbprop_n).
+  - (* director *) destruct H as (A & B & C & D & E & F). cbn [nstmt cdeclx]. repeat split; auto.
+    rewrite Forall_forall in *. intros x Hx. apply in_map_iff in Hx as [y [<- Hy]]. apply cdprop_n. auto.
+  - (* table *) destruct H as (A & B & C & D & E & F). cbn [nstmt cdeclx]. repeat split; auto. now apply ctprops_n.
   - (* sub *) destruct H as (A & B & C & D & E & F). cbn [nstmt cdeclx cdecl].
     split; [exact A|]. split; [exact B|]. split.
     { destruct params as [[[lp ps] rp]|]; auto. destruct ps; auto. }
@@ -359,10 +393,10 @@ Proof.
     exact (proj1 (proj2 norm_canonical) b rb D _).
 Qed.
 
-Theorem cprog_n : forall ds, cprog fok ds -> allp dbooks ds -> cprog fok (map (nstmt c false) ds).
+Theorem cprog_n : forall ds, cprog fok ds -> cprog fok (map (nstmt c false) ds).
 Proof.
-  induction ds as [|d ds IH]; cbn [cprog map allp]; auto.
-  intros [Hd Hds] [Hb Hbs]. split; [|now apply IH].
+  induction ds as [|d ds IH]; cbn [cprog map]; auto.
+  intros [Hd Hds]. split; [|now apply IH].
   apply (cdeclx_n d _ _ Hd); auto.
   destruct ds as [|d2 ds]; [apply sim_refl|]. cbn [map flat_map]. rewrite !hdt_app_ne by apply ystmt_ne.
   apply hd_nstmt. destruct Hds as [Hd2 _]. destruct d2; cbn [remove_ok]; auto.
@@ -371,10 +405,10 @@ Qed.
 
 (* the tokens of the normalised program parse to exactly the normalised tree *)
 Theorem program_norm_parses ds :
-  cprog fok ds -> allp dbooks ds ->
+  cprog fok ds ->
   parse_vcl fok (flat_map ystmt (vstmts (norm_vcl c (Vcl ds false)))) = POK (norm_vcl c (Vcl ds false)).
 Proof.
-  intros H Hb. unfold norm_vcl. cbn [vstmts vsnippet].
+  intros H. unfold norm_vcl. cbn [vstmts vsnippet].
   apply (program_roundtrip fok). now apply cprog_n.
 Qed.
 
@@ -383,13 +417,10 @@ End B.
 (* ---------------------------------------------------------------- non-vacuity: the witness program of C02
    (a typed sub with a juxtaposition, an elsif, a switch, return (true); and an acl) under a configuration
    where every rewrite applies *)
-Example ex_prog_books : allp (dbooks FmtExamples.ex_conf) ex_prog.
-Proof. vm_compute. repeat split; reflexivity. Qed.
-
 Example ex_prog_norm_parses :
   parse_vcl (fun _ => true) (flat_map ystmt (vstmts (norm_vcl FmtExamples.ex_conf (Vcl ex_prog false))))
   = POK (norm_vcl FmtExamples.ex_conf (Vcl ex_prog false)).
-Proof. exact (program_norm_parses _ _ ex_prog ex_prog_canonical ex_prog_books). Qed.
+Proof. exact (program_norm_parses _ _ ex_prog ex_prog_canonical). Qed.
 
 Example ex_prog_norm_changes : norm_vcl FmtExamples.ex_conf (Vcl ex_prog false) <> Vcl ex_prog false.
 Proof. intros H. vm_compute in H. discriminate H. Qed.
@@ -475,3 +506,134 @@ Proof.
     + destruct (ttype_eqb (typ (head e)) T_LEFT_PAREN) eqn:E; rewrite ?W, ?head_nexpr, ?E, nexpr_idem; reflexivity.
     + rewrite ?W, nexpr_idem. reflexivity.
 Qed.
+
+(* ---------------------------------------------------------------- C14 at tree level, statements and programs:
+   the normalisation of a canonical statement / block / chain / case list is a fixed point of the normalisation
+   (induction over the canonicity derivation of C02) *)
+Section I.
+Variable c : FmtTok.fmt_config.
+Variable fok : str -> bool.
+
+Lemma nargs_idem a : nargs c (nargs c a) = nargs c a.
+Proof.
+  unfold nargs. destruct (FmtTok.explicit_string_concat c);
+    [apply (proj1 (proj2 mark_idem))|apply (proj1 (proj2 unmark_idem))].
+Qed.
+
+Lemma nhead_idem h : nhead c (nhead c h) = nhead c h.
+Proof. destruct h as [kw [e|op e]|kw]; cbn [nhead]; rewrite ?nexpr_idem; reflexivity. Qed.
+
+Lemma citems_idem items :
+  map (fun x : expr * option token => (nexpr c (fst x), snd x)) (map (fun x => (nexpr c (fst x), snd x)) items)
+  = map (fun x => (nexpr c (fst x), snd x)) items.
+Proof. rewrite map_map. apply map_ext. intros [e t]. cbn [fst snd]. now rewrite nexpr_idem. Qed.
+
+Lemma simple_idem fn s nx : csimple fok s nx -> nstmt c fn (nstmt c fn s) = nstmt c fn s.
+Proof.
+  intros H. destruct s; cbn [csimple] in H; try contradiction; cbn [nstmt]; rewrite ?nexpr_idem; try reflexivity.
+  - (* remove *) destruct (FmtTok.should_use_unset c) eqn:E; cbn [nstmt]; rewrite ?E; reflexivity.
+  - (* declare *) destruct v as [[q e]|]; rewrite ?nexpr_idem; reflexivity.
+  - (* call *) destruct a as [[[lp items] rp]|]; [|reflexivity]. destruct items as [|[e t] items]; [reflexivity|].
+    cbn [map nstmt fst snd]. rewrite nexpr_idem. fold (map (fun x : expr * option token => (nexpr c (fst x), snd x)) items).
+    rewrite citems_idem. reflexivity.
+  - (* error *) destruct code, arg; cbn [option_map]; rewrite ?nexpr_idem; reflexivity.
+  - (* return *) now rewrite nret_idem.
+Qed.
+
+Lemma nels_idem fn els : (forall b, (exists k lb rb, els = Some (k, lb, b, rb)) ->
+    map (nstmt c fn) (map (nstmt c fn) b) = map (nstmt c fn) b) ->
+  nels c fn (nels c fn els) = nels c fn els.
+Proof.
+  destruct els as [[[[k lb] b] rb]|]; cbn [nels]; [|reflexivity]. intros H. rewrite (H b); [reflexivity|eauto].
+Qed.
+
+Lemma nstmt_if_eq fn kw lp cnd rp lb b rb an els :
+  nstmt c fn (SIf kw lp cnd rp lb b rb an els)
+  = SIf kw lp (nexpr c cnd) rp lb (map (nstmt c fn) b) rb (map (nelif c fn) an) (nels c fn els).
+Proof. reflexivity. Qed.
+Lemma nstmt_switch_eq fn kw lp ctl rp lb cases d rb :
+  nstmt c fn (SSwitch kw lp ctl rp lb cases d rb) = SSwitch kw lp (nexpr c ctl) rp lb (map (ncase c fn) cases) d rb.
+Proof. reflexivity. Qed.
+Lemma nstmt_block_eq fn lb b rb : nstmt c fn (SBlock lb b rb) = SBlock lb (map (nstmt c fn) b) rb.
+Proof. reflexivity. Qed.
+
+Theorem norm_fixed_point :
+  (forall s nx, cstmt fok s nx -> forall fn, nstmt c fn (nstmt c fn s) = nstmt c fn s)
+  /\ (forall ss rb, cblock fok ss rb -> forall fn, map (nstmt c fn) (map (nstmt c fn) ss) = map (nstmt c fn) ss)
+  /\ (forall an els nx, cchain fok an els nx -> forall fn,
+        map (nelif c fn) (map (nelif c fn) an) = map (nelif c fn) an /\ nels c fn (nels c fn els) = nels c fn els)
+  /\ (forall cs rb, ccases fok cs rb -> forall fn, map (ncase c fn) (map (ncase c fn) cs) = map (ncase c fn) cs)
+  /\ (forall ss ft nx, cbody fok ss ft nx -> forall fn, map (nstmt c fn) (map (nstmt c fn) ss) = map (nstmt c fn) ss).
+Proof.
+  apply cstmt_all_ind.
+  - intros s nx H fn. now apply (simple_idem fn s nx).
+  - intros. cbn [nstmt]. now rewrite nargs_idem.
+  - intros. reflexivity.
+  - intros lb ss rb nx A B IH fn. rewrite !nstmt_block_eq. now rewrite IH.
+  - intros kw lp cnd rp lb b rb an els nx A B C D E F IHb G IHc fn.
+    destruct (IHc fn) as [I1 I2]. rewrite !nstmt_if_eq.
+    rewrite nexpr_idem, IHb, I1, I2. reflexivity.
+  - intros kw lp ctl rp lb cases d rb nx A B C D E F IHc G H fn. rewrite !nstmt_switch_eq. now rewrite nexpr_idem, IHc.
+  - intros. reflexivity.
+  - intros s ss rb A IHs B IHb fn. cbn [map]. now rewrite IHs, IHb.
+  - intros. split; reflexivity.
+  - intros k lb ss rb nx A B C IH fn. split; [reflexivity|]. cbn [nels]. now rewrite IH.
+  - intros k1 k2 lp cnd rp lb b rb more els nx A B C D E F IHb G IHc fn. destruct (IHc fn) as [I1 I2].
+    split; [|exact I2]. cbn [map]. rewrite I1. f_equal. rewrite (nelif_eq c fn k1 k2).
+    destruct k2 as [i|]; [|destruct (FmtTok.else_if c) eqn:Ee]; rewrite nelif_eq, ?Ee, nexpr_idem, IHb; reflexivity.
+  - intros. reflexivity.
+  - intros h cl body ft cs rb A B C IHb D IHc fn. cbn [map]. rewrite IHc. f_equal.
+    rewrite !ncase_eq. now rewrite nhead_idem, IHb.
+  - intros. reflexivity.
+  - intros. reflexivity.
+  - intros s ss ft nx A IHs B IHb fn. cbn [map]. now rewrite IHs, IHb.
+  - intros kw sm ss ft nx A B C IH fn. cbn [map nstmt]. now rewrite IH.
+  - intros kw sm ss ft nx A B C IH fn. cbn [map nstmt]. now rewrite IH.
+Qed.
+
+Lemma ndfield_idem f : ndfield c (ndfield c f) = ndfield c f.
+Proof. destruct f. cbn [ndfield]. now rewrite nexpr_idem. Qed.
+
+Lemma ndprop_idem p : ndprop c (ndprop c p) = ndprop c p.
+Proof.
+  destruct p as [f|lb fs rb]; cbn [ndprop]; [now rewrite ndfield_idem|].
+  rewrite map_map. f_equal. apply map_ext. intros. apply ndfield_idem.
+Qed.
+
+Lemma ntprop_idem p : ntprop c (ntprop c p) = ntprop c p.
+Proof. destruct p as [k cl v cm]. cbn [ntprop]. rewrite !nexpr_idem. destruct cm; reflexivity. Qed.
+
+Lemma nbprop_idem : forall p, nbprop c (nbprop c p) = nbprop c p.
+Proof.
+  fix IH 1. intros [d k q v sm|d k q lb ps rb]; cbn [nbprop].
+  - now rewrite nexpr_idem.
+  - f_equal. rewrite map_map. induction ps as [|a ps IHps]; cbn [map]; [reflexivity|]. now rewrite IH, IHps.
+Qed.
+
+Lemma decl_idem d nx : cdeclx fok d nx -> nstmt c false (nstmt c false d) = nstmt c false d.
+Proof.
+  intros H. destruct d; cbn [cdeclx cdecl] in H; try contradiction; try reflexivity.
+  - (* backend *) cbn [nstmt]. f_equal. rewrite map_map. apply map_ext. intros. apply nbprop_idem.
+  - (* director *) cbn [nstmt]. f_equal. rewrite map_map. apply map_ext. intros. apply ndprop_idem.
+  - (* table *) cbn [nstmt]. f_equal. rewrite map_map. apply map_ext. intros. apply ntprop_idem.
+  - (* sub *) destruct H as (_ & _ & _ & _ & _ & F).
+    pose proof (proj1 (proj2 norm_fixed_point) b rb F (match ret with Some _ => true | None => false end)) as I.
+    cbn [nstmt]. rewrite I. f_equal. destruct params as [[[lp ps] rp]|]; [destruct ps|]; reflexivity.
+  - (* penaltybox *) destruct H as (_ & _ & _ & F). cbn [nstmt].
+    now rewrite (proj1 (proj2 norm_fixed_point) b rb F false).
+  - (* ratecounter *) destruct H as (_ & _ & _ & F). cbn [nstmt].
+    now rewrite (proj1 (proj2 norm_fixed_point) b rb F false).
+Qed.
+
+(* format o format = format on the tree: the normalised program is a fixed point *)
+Theorem tree_idem ds : cprog fok ds -> norm_vcl c (norm_vcl c (Vcl ds false)) = norm_vcl c (Vcl ds false).
+Proof.
+  intros H. unfold norm_vcl. cbn [vstmts vsnippet]. f_equal.
+  induction ds as [|d ds IH]; [reflexivity|]. destruct H as [Hd Hds]. cbn [map].
+  now rewrite (decl_idem d _ Hd), (IH Hds).
+Qed.
+End I.
+
+Example ex_prog_tree_idem :
+  norm_vcl FmtExamples.ex_conf (norm_vcl FmtExamples.ex_conf (Vcl ex_prog false)) = norm_vcl FmtExamples.ex_conf (Vcl ex_prog false).
+Proof. exact (tree_idem _ _ ex_prog ex_prog_canonical). Qed.
